@@ -560,6 +560,7 @@ func rulePlanKeys(c *Ctx) {
 		c.check(nTrim > 0, c.Name(v), "blank-means-trimspace-empty", c.FnPos(v), "blank fields are recognised by strings.TrimSpace(x) == \"\"",
 			"the plan validator never compares strings.TrimSpace(x) with \"\": blankness is decided some other way than replay decides it, so a title made of non-ASCII white space is accepted, recorded, and replaced by the legacy-title migration on every read")
 	}
+	c.titleNeverJudgedByPlainEmptiness()
 	var fns []*ssa.Function
 	if v := c.FnImpl("(*ergo.PlanInput).Validate"); v != nil {
 		fns = append(fns, v)
